@@ -29,7 +29,7 @@ Definition at_signal (p : apc) : nat := match p with ASignal _ => 1 | _ => 0 end
 Definition notifies_left (s : state) : nat :=
   sum (map (fun a => 2 * sum (map is_enq (a_prog a)) + at_enq_notify (a_pc a)) (apps s))
   + sum (map (fun q => length (q_cmds q)) (queues s))
-  + match eng s with Some (ERetNotify _) | Some (EQNotify _) => 1 | _ => 0 end.
+  + match eng s with Some (ERetNotify _) | Some (EQNotify _) | Some (EEmptyNotify _) => 1 | _ => 0 end.
 
 (** rendezvous on enqueueSignal still to come *)
 Definition signals_left (s : state) : nat :=
@@ -37,7 +37,7 @@ Definition signals_left (s : state) : nat :=
 
 Definition eng_mp (e : option epc) : nat :=
   match e with
-  | Some (ESend true) | Some (ERet true) | Some (ERetNotify _) | Some (EQ _ true) | Some (EQNotify _) | Some (EEnd true) => 1
+  | Some (ESend true) | Some (EEmpty true) | Some (EEmptyNotify _) | Some (ERet true) | Some (ERetNotify _) | Some (EQ _ true) | Some (EQNotify _) | Some (EEnd true) => 1
   | _ => 0
   end.
 
@@ -57,13 +57,15 @@ Definition engw (nq : nat) (e : option epc) : nat :=
   match e with
   | None => 0
   | Some EExit => 1 | Some EReturned => 2 | Some ECheck => 3 | Some ELock => 2 | Some EPop => 1
-  | Some (ESend _) => 2 * nq + 8 | Some (ERet _) => 2 * nq + 7 | Some (ERetNotify _) => 2 * nq + 6
+  | Some (ESend _) => 2 * nq + 9 | Some (EEmpty _) => 2 * nq + 8 | Some (EEmptyNotify _) => 2 * nq + 9
+  | Some (ERet _) => 2 * nq + 7 | Some (ERetNotify _) => 2 * nq + 6
   | Some (EQ i _) => 5 + 2 * (nq - i) | Some (EQNotify i) => 4 + 2 * (nq - i)
   | Some (EEnd _) => 4
   end.
 
 Definition local_left (s : state) : nat :=
-  sum (map appw (apps s)) + raw (ra s) + engw (length (queues s)) (eng s) + 4 * ewait s + 2 * b2nat (rerun s).
+  sum (map appw (apps s)) + raw (ra s) + engw (length (queues s)) (eng s) + 4 * ewait s + 2 * b2nat (rerun s)
+  + 2 * length (empties s).
 
 Definition rank (s : state) : nat :=
   (4 * length (apps s) + 1) * notifies_left s
